@@ -685,3 +685,129 @@ Example c04_ex_obo_sub_get :
       (1%N, MetaDel 3 [(1, 0); (4, 6)])];
      [(1%N, Ctrl 304 [])]; [(2%N, Ctrl 403 [])]].
 Proof. exact obo_sub_get_example. Qed.
+
+(* ====================================================================== *)
+(* C04, fourth part: "a user without read permission gets none" on topics with CHANNEL subscriptions - whatever
+   name (grpXXX / chnXXX / usrXXX / p2pXXX) the request is addressed to and however the session is attached
+   (under the group name, under the channel name, on behalf of a user).  Model: the fan-out slice Sys/Fanout.v
+   (perUser with isChan, sessions with isChanSub, verifyChannelAccess, attach under either name) + the stored rows
+   and replyGetData of Sys/FanoutQueryC01.v + replyGetDel and {sub get=data} of Sys/FanoutHistC04.v.
+   Scope of that slice: no {del msg} requests (the deletion log is empty), the store never fails, the topic stays
+   loaded.  Statements are for every state / every history of the slice. *)
+From Tinode Require Sys.Fanout Sys.FanoutQueryC01 Sys.FanoutQueryC01Proofs Sys.FanoutHistC04 Sys.FanoutHistC04Proofs.
+Section ChanC04.
+Import Sys.Fanout Sys.FanoutQueryC01 Sys.FanoutQueryC01Proofs Sys.FanoutHistC04 Sys.FanoutHistC04Proofs.
+Local Open Scope N_scope.
+
+(* after ANY history, a {get what=data} executed for a user whose want & given lacks R shows no message: the name
+   used, the range, the requesting session and the way it is attached are all universally quantified *)
+Theorem c04_chan_history_needs_read : forall x0 ops s u name since before limit,
+  let x := fst (hrun_c04 x0 ops) in
+  read_gate_c04 (q_st x) u = false ->
+  forall e, In e (snd (hstep_c04 x (HQ (QGetData s u name since before limit)))) -> is_data_c04 (snd e) = false.
+Proof. exact hrun_get_data_needs_read. Qed.
+Print Assumptions c04_chan_history_needs_read.
+
+(* the handler itself, in any state: one {ctrl} - 404 (channel name on a topic without channels) or 204 *)
+Theorem c04_chan_get_data_needs_read : forall x s u name since before limit,
+  read_gate_c04 (q_st x) u = false ->
+  q_get_data x s u name since before limit = [(s, QCtrl 404%Z)] \/
+  q_get_data x s u name since before limit = [(s, QCtrl 204%Z)].
+Proof. exact q_get_data_needs_read. Qed.
+Print Assumptions c04_chan_get_data_needs_read.
+
+(* with R: exactly the rows the store contract selects for the ACTING user in [since, before), newest first, at most
+   the limit - for channel readers, subscribers and sessions acting on behalf of a user alike *)
+Theorem c04_chan_history_exact : forall x0 ops s u name since before limit,
+  let x := fst (hrun_c04 x0 ops) in
+  has_key s (st_sess (q_st x)) = true ->
+  read_gate_c04 (q_st x) u = true -> chan_ok (q_st x) (name_chan_c01q name) = true ->
+  shown_c04 (snd (hstep_c04 x (HQ (QGetData s u name since before limit)))) =
+  pairs_c04 (Topic.ad_msg_get_all (store_of_c01q (q_msgs x)) u since before limit).
+Proof. exact hrun_get_data_exact. Qed.
+Print Assumptions c04_chan_history_exact.
+
+(* the name decides nothing about which messages are shown *)
+Theorem c04_chan_name_irrelevant : forall x s u n1 n2 since before limit,
+  chan_ok (q_st x) (name_chan_c01q n1) = true -> chan_ok (q_st x) (name_chan_c01q n2) = true ->
+  shown_c04 (lift_c04 (q_get_data x s u n1 since before limit)) =
+  shown_c04 (lift_c04 (q_get_data x s u n2 since before limit)).
+Proof. exact q_get_data_name_irrelevant. Qed.
+Print Assumptions c04_chan_name_irrelevant.
+
+(* every {data} of an answer is a stored row of this topic, goes to the requesting session under the name the acting
+   user knows the topic by, and its author is withheld exactly when the request used the channel name *)
+Theorem c04_chan_author_withheld : forall x s u name since before limit k t f q c,
+  In (k, QData t f q c) (q_get_data x s u name since before limit) ->
+  k = s /\ t = original (q_st x) u /\
+  exists m, In m (q_msgs x) /\ Topic.m_seq m = q /\ Topic.m_content m = c /\
+            f = (if name_chan_c01q name then 0 else Topic.m_from m).
+Proof. exact q_get_data_author. Qed.
+Print Assumptions c04_chan_author_withheld.
+
+(* {get what=del}: the same gate; in this slice the log is empty *)
+Theorem c04_chan_dellog_needs_read : forall x0 ops s u name since before limit,
+  let x := fst (hrun_c04 x0 ops) in
+  read_gate_c04 (q_st x) u = false ->
+  forall e, In e (snd (hstep_c04 x (HGetDel s u name since before limit))) -> is_metadel_c04 (snd e) = false.
+Proof. exact hrun_get_del_needs_read. Qed.
+Print Assumptions c04_chan_dellog_needs_read.
+
+Theorem c04_chan_dellog_empty : forall x s u name since before limit,
+  q_get_del_c04 x s u name since before limit = [(s, HF (QCtrl 404%Z))] \/
+  q_get_del_c04 x s u name since before limit = [(s, HF (QCtrl 204%Z))].
+Proof. exact q_get_del_empty_log. Qed.
+Print Assumptions c04_chan_dellog_empty.
+
+(* {sub get=data}: the subscription, then the history handler for the same acting user and name in the state the
+   subscription left; no R there -> no message *)
+Theorem c04_chan_sub_get_is_query : forall x s u name since before limit x1 out,
+  h_sub_get_data_c04 x s u name since before limit = (Some x1, out) ->
+  (x1 = x /\ out = [(s, HF (QCtrl 404%Z))]) \/
+  (q_msgs x1 = q_msgs x /\ attach (q_st x) s u (name_chan_c01q name) = Some (q_st x1) /\
+   out = lift_c04 (q_get_data x1 s u name since before limit)).
+Proof. exact h_sub_get_data_is_query. Qed.
+Print Assumptions c04_chan_sub_get_is_query.
+
+Theorem c04_chan_sub_get_needs_read : forall x s u name since before limit x1 out,
+  h_sub_get_data_c04 x s u name since before limit = (Some x1, out) ->
+  read_gate_c04 (q_st x1) u = false -> shown_c04 out = [].
+Proof. exact h_sub_get_data_needs_read. Qed.
+Print Assumptions c04_chan_sub_get_needs_read.
+
+(* the wrapper adds nothing to FanoutQueryC01 on its requests *)
+Theorem c04_chan_conservative : forall x o,
+  hstep_c04 x (HQ o) = (fst (fst (qstep x o)), lift_c04 (snd (qstep x o))).
+Proof. exact hstep_conservative. Qed.
+Print Assumptions c04_chan_conservative.
+
+(* REFUTED + PARTIAL: the read gate short-circuited for requests addressed through the channel name
+   (`asChan || (given & want).IsReader()`, seeded change C04-r4-3): a subscriber without R reads the history by
+   spelling the topic chnXXX; the variant coincides with the handler for every request addressed by the group / p2p
+   name and for every reader *)
+Theorem c04_chan_aschan_gate_refuted : ~ aschan_gate_statement_c04.
+Proof. exact aschan_gate_refuted_c04. Qed.
+Print Assumptions c04_chan_aschan_gate_refuted.
+
+Theorem c04_chan_aschan_gate_partial : forall x s u name since before limit,
+  name_chan_c01q name = false \/ read_gate_c04 (q_st x) u = true ->
+  q_get_data_aschan_c04 x s u name since before limit = q_get_data x s u name since before limit.
+Proof. exact aschan_gate_partial_c04. Qed.
+Print Assumptions c04_chan_aschan_gate_partial.
+
+(* non-vacuity: channel-enabled group, owner 1 publishes 101, member 2 (given JWPS: no R) attached under the group
+   name: 204 under both names, the owner reads message 1 through the channel name; {sub get=data} of channel reader 3
+   (first connection) shows message 1 with the author withheld, of member 2 under the group name 204 *)
+Example c04_ex_chan_needs_read :
+  read_gate_c04 (q_st wh_x_c04) 2 = false /\
+  q_get_data wh_x_c04 2 2 TChn 0%Z 0%Z 0%Z = [(2, QCtrl 204%Z)] /\
+  q_get_data wh_x_c04 2 2 TGrp 0%Z 0%Z 0%Z = [(2, QCtrl 204%Z)] /\
+  shown_c04 (lift_c04 (q_get_data wh_x_c04 1 1 TChn 0%Z 0%Z 0%Z)) = [(1%Z, 101)].
+Proof. split; [exact wh_gate_c04|exact wh_real_c04]. Qed.
+
+Example c04_ex_chan_sub_get :
+  snd (h_sub_get_data_c04 ws_x_c04 3 3 TChn 0%Z 0%Z 0%Z) = [(3, HF (QData TChn 0 1%Z 101)); (3, HF (QCtrl 208%Z))] /\
+  snd (h_sub_get_data_c04 ws_x_c04 2 2 TGrp 0%Z 0%Z 0%Z) = [(2, HF (QCtrl 204%Z))] /\
+  fst (h_sub_get_data_c04 ws_x_c04 2 2 TChn 0%Z 0%Z 0%Z) = None.
+Proof. exact ws_ok_c04. Qed.
+End ChanC04.
